@@ -10,7 +10,8 @@ from lib.common import LEAN, write_if_changed
 from lib import solvercheck as SC, solverlib as L
 import translate_solver as ts
 
-THEOREMS = ["Claripy.Props.C15.C15_merge_models", "Claripy.Props.C15.C15_merge_ancestor_models", "Claripy.Props.C15.C15_combine_models"]
+THEOREMS = ["Claripy.Props.C15.C15_merge_models", "Claripy.Props.C15.C15_merge_ancestor_models", "Claripy.Props.C15.C15_combine_models",
+            "Claripy.Props.C15.C15_split_partition", "Claripy.Solver.splitInv_step", "Claripy.Solver.splitInv_final", "Claripy.Solver.allIdx_nodup"]
 TESTS = ["Claripy.Props.C15.test_split_examples"]
 CLASSES = ["Solver", "SolverCacheless", "SolverHybrid", "SolverComposite"]
 A = lambda c, s=0: {"s": s, "op": "add", "cs": [c]}  # noqa: E731
